@@ -120,6 +120,9 @@ type Net struct {
 	// OnStream, if set (before use), is called for every request HEADERS read by
 	// any scripted server, from that server's reader goroutine.
 	OnStream func(s StreamSeen)
+	// DialDelay, if set (before use), is the (virtual) latency of every dial.
+	DialDelay time.Duration
+	inflight  map[string]int
 }
 
 // NewNet creates a network whose default behaviour is def.
@@ -171,7 +174,29 @@ var ErrRefused = errors.New("chanfix: connection refused")
 
 // Dialer is the function for grpc.WithContextDialer.
 func (n *Net) Dialer() func(context.Context, string) (net.Conn, error) {
-	return func(_ context.Context, addr string) (net.Conn, error) {
+	return func(ctx context.Context, addr string) (net.Conn, error) {
+		if n.DialDelay > 0 {
+			n.mu.Lock()
+			if n.inflight == nil {
+				n.inflight = map[string]int{}
+			}
+			n.inflight[addr]++
+			n.mu.Unlock()
+			t := time.NewTimer(n.DialDelay)
+			var err error
+			select {
+			case <-t.C:
+			case <-ctx.Done():
+				t.Stop()
+				err = ctx.Err()
+			}
+			n.mu.Lock()
+			n.inflight[addr]--
+			n.mu.Unlock()
+			if err != nil {
+				return nil, err
+			}
+		}
 		n.mu.Lock()
 		mode := n.next(addr)
 		num := len(n.dials)
@@ -334,6 +359,14 @@ func (sc *SConn) Pending() bool {
 	sc.mu.Lock()
 	defer sc.mu.Unlock()
 	return sc.Mode == Hang && !sc.closed && !sc.clientGone
+}
+
+// InFlight reports how many dials to addr are currently inside the dialer
+// (waiting out DialDelay).
+func (n *Net) InFlight(addr string) int {
+	n.mu.Lock()
+	defer n.mu.Unlock()
+	return n.inflight[addr]
 }
 
 // Dials returns the dial log.
